@@ -137,8 +137,11 @@ Fixpoint wf (t : ty) (v : val) {struct t} : Prop :=
   match t, v with
   | TS k, VInt z => in_range k z
   | TStr, VStr b => True
-  | TVec e, VSeq l | TList e, VSeq l | TSet e, VSeq l =>
+  | TVec e, VSeq l | TList e, VSeq l =>
       (fix go (l : list val) : Prop := match l with [] => True | x :: r => wf e x /\ small (ssize e x) /\ go r end) l
+  | TSet e, VSeq l =>   (* pairwise different elements (as the parser will see them) *)
+      (fix go (l : list val) : Prop := match l with [] => True | x :: r => wf e x /\ small (ssize e x) /\ go r end) l
+      /\ NoDup (map (norm e) l)
   | TArr n e, VSeq l =>
       length l = n /\
       (fix go (l : list val) : Prop := match l with [] => True | x :: r => wf e x /\ small (ssize e x) /\ go r end) l
@@ -149,6 +152,7 @@ Fixpoint wf (t : ty) (v : val) {struct t} : Prop :=
          | VSeq [a; b] :: r => wf k a /\ small (ssize k a) /\ wf w b /\ small (ssize w b) /\ go r
          | _ :: _ => False
          end) l
+      /\ NoDup (map (fun p => norm k (entry_key p)) l)   (* pairwise different keys *)
   | TPtr _ e, VNull => True
   | TPtr _ e, VSome x => wf e x
   | TAgg fs, VSeq l =>
@@ -295,9 +299,9 @@ Proof.
   - reflexivity.
   - destruct Hok. apply wf_elems in Hwf. cbn [ssize encode]. apply seq_size_exact; auto.
   - destruct Hok. apply wf_elems in Hwf. cbn [ssize encode]. apply seq_size_exact; auto.
-  - destruct Hok. apply wf_elems in Hwf. cbn [ssize encode]. apply seq_size_exact; auto.
+  - destruct Hok. destruct Hwf as [Hwf _]. apply wf_elems in Hwf. cbn [ssize encode]. apply seq_size_exact; auto.
   - (* map *)
-    destruct Hok as (_ & _ & Hk & Hv). cbn [ssize encode].
+    destruct Hok as (_ & _ & Hk & Hv). cbn [ssize encode]. destruct Hwf as [Hwf _].
     induction l as [|p r IH]. reflexivity.
     destruct p as [| |[|a [|b [|]]]| |]; try contradiction.
     destruct Hwf as (Wa & Sa & Wb & Sb & Hr).
@@ -404,8 +408,10 @@ Proof.
   destruct k; cbn [dec_scalar sk_encode] in *;
     try (rewrite read_varint_ok by apply u32_range; rewrite C32; reflexivity);
     try (rewrite read_varint_ok by apply u64_range; rewrite C64; reflexivity).
-  - rewrite read_fixed_ok. reflexivity. cbn [in_range] in H. change (256 ^ Z.of_nat 4) with (2 ^ 32). lia.
-  - rewrite read_fixed_ok. reflexivity. cbn [in_range] in H. change (256 ^ Z.of_nat 8) with (2 ^ 64). lia.
+  - cbn [in_range] in H. rewrite read_fixed_ok by (change (256 ^ Z.of_nat 4) with (2 ^ 32); lia).
+    cbn [sk_cast]. rewrite Z.mod_small by lia. reflexivity.
+  - cbn [in_range] in H. rewrite read_fixed_ok by (change (256 ^ Z.of_nat 8) with (2 ^ 64); lia).
+    cbn [sk_cast]. rewrite Z.mod_small by lia. reflexivity.
 Qed.
 
 Lemma sk_encode_nonempty : forall k z, sk_encode k z <> [].
@@ -502,7 +508,105 @@ Qed.
 End RT.
 
 
-(* the part of the type universe the round-trip theorem is proved for: everything but hash containers *)
+Lemma cond_data_nil : has_data (S0 []) = false.
+Proof. reflexivity. Qed.
+
+(* ---------- value equality, hash containers ---------- *)
+Section ValInd.
+  Variable P : val -> Prop.
+  Hypothesis HI : forall z, P (VInt z).
+  Hypothesis HSt : forall b, P (VStr b).
+  Hypothesis HSq : forall l, Forall P l -> P (VSeq l).
+  Hypothesis HN : P VNull.
+  Hypothesis HSo : forall v, P v -> P (VSome v).
+  Fixpoint val_ind' (v : val) : P v :=
+    match v with
+    | VInt z => HI z
+    | VStr b => HSt b
+    | VSeq l => HSq l ((fix go (l : list val) : Forall P l :=
+                          match l with [] => Forall_nil _ | x :: r => Forall_cons x (val_ind' x) (go r) end) l)
+    | VNull => HN
+    | VSome x => HSo x (val_ind' x)
+    end.
+End ValInd.
+
+Lemma list_eqb_Z_true : forall x y, list_eqb Z.eqb x y = true -> x = y.
+Proof.
+  induction x as [|a x IH]; destruct y as [|b y]; cbn; intros H; try discriminate; auto.
+  apply andb_prop in H. destruct H as [H1 H2]. apply Z.eqb_eq in H1. f_equal; auto.
+Qed.
+
+Lemma val_eqb_true : forall a b, val_eqb a b = true -> a = b.
+Proof.
+  induction a using val_ind'; intros b0 E; destruct b0; cbn [val_eqb] in E; try discriminate.
+  - apply Z.eqb_eq in E. congruence.
+  - apply list_eqb_Z_true in E. congruence.
+  - f_equal. revert l0 E. induction H as [|x l Hx Hl IH]; intros l0 E; destruct l0 as [|y l0]; try discriminate; auto.
+    apply andb_prop in E. destruct E as [E1 E2]. f_equal; auto.
+  - reflexivity.
+  - f_equal. auto.
+Qed.
+
+Lemma set_add_fresh : forall x acc, ~ In x acc -> set_add x acc = acc ++ [x].
+Proof.
+  intros x acc H. unfold set_add. destruct (existsb (val_eqb x) acc) eqn:E; [|reflexivity].
+  exfalso. apply existsb_exists in E. destruct E as (y & Hy & E). apply val_eqb_true in E. subst. contradiction.
+Qed.
+
+Lemma map_add_fresh : forall k v acc, ~ In k (map entry_key acc) -> map_add k v acc = acc ++ [VSeq [k; v]].
+Proof.
+  intros k v acc H. unfold map_add. destruct (existsb (fun p => val_eqb k (entry_key p)) acc) eqn:E; [|reflexivity].
+  exfalso. apply existsb_exists in E. destruct E as (y & Hy & E). apply val_eqb_true in E. subst.
+  apply H. apply in_map. exact Hy.
+Qed.
+
+Lemma seq_loop_pieces_set : forall cond d dv pcs vals,
+  (forall w, cond (S0 w) = match w with [] => false | _ => true end) ->
+  Forall2 (piece_ok d dv) pcs vals ->
+  forall fuel acc, NoDup (acc ++ vals) -> (length (concat pcs) < fuel)%nat ->
+  seq_loop cond d dv set_add fuel (S0 (concat pcs)) acc = Ok (VSeq (acc ++ vals)) (S0 []).
+Proof.
+  intros cond d dv pcs vals Hc HF. induction HF as [|pc v pcs vals [Hne Hpc] _ IH]; intros fuel acc Hnd Hfuel.
+  - destruct fuel; [cbn in Hfuel; lia|]. cbn [seq_loop concat]. rewrite Hc, app_nil_r. reflexivity.
+  - destruct fuel; [lia|]. cbn [seq_loop concat]. rewrite Hc.
+    destruct (pc ++ concat pcs) eqn:E; [apply app_eq_nil in E; destruct E; contradiction|]. rewrite <- E.
+    rewrite Hpc. unfold shorter, S0. cbn [win].
+    replace (length (concat pcs) <? length (pc ++ concat pcs))%nat with true.
+    + fold (S0 (concat pcs)). rewrite set_add_fresh.
+      * rewrite IH. rewrite <- app_assoc. reflexivity.
+        rewrite <- app_assoc. exact Hnd.
+        cbn [concat] in Hfuel. rewrite app_length in Hfuel. destruct pc; [contradiction|]. cbn in Hfuel. lia.
+      * apply NoDup_remove_2 in Hnd. intro Hin. apply Hnd. apply in_or_app. left. exact Hin.
+    + symmetry. apply Nat.ltb_lt. rewrite app_length. destruct pc; [contradiction|]. cbn. lia.
+Qed.
+
+Definition mk_entry (kv : val * val) : val := VSeq [fst kv; snd kv].
+
+Lemma map_loop_pieces : forall dk dw dvk dvw pps kvs,
+  Forall2 (fun (pp : list Z * list Z) (kv : val * val) =>
+             piece_ok dk dvk (fst pp) (fst kv) /\ piece_ok dw dvw (snd pp) (snd kv)) pps kvs ->
+  forall fuel acc, NoDup (map entry_key acc ++ map fst kvs) ->
+  (length (concat (map (fun pp => fst pp ++ snd pp) pps)) < fuel)%nat ->
+  map_loop dk dw dvk dvw fuel (S0 (concat (map (fun pp => fst pp ++ snd pp) pps))) acc
+  = Ok (VSeq (acc ++ map mk_entry kvs)) (S0 []).
+Proof.
+  intros dk dw dvk dvw pps kvs HF. induction HF as [|[pk pv] [k w] pps kvs [[Hnk Hpk] [Hnw Hpw]] _ IH];
+    intros fuel acc Hnd Hfuel.
+  - destruct fuel; [cbn in Hfuel; lia|]. cbn [map_loop map concat]. rewrite cond_data_nil, app_nil_r. reflexivity.
+  - destruct fuel; [lia|]. cbn [map_loop map concat fst snd] in *.
+    assert (Hd : has_data (S0 ((pk ++ pv) ++ concat (map (fun pp => fst pp ++ snd pp) pps))) = true).
+    { destruct pk; [contradiction|]. reflexivity. }
+    rewrite Hd. rewrite <- app_assoc. rewrite Hpk, Hpw. unfold shorter, S0. cbn [win].
+    replace (length (concat (map (fun pp => fst pp ++ snd pp) pps)) <? _)%nat with true.
+    + fold (S0 (concat (map (fun pp => fst pp ++ snd pp) pps))). rewrite map_add_fresh.
+      * rewrite IH. rewrite <- app_assoc. reflexivity.
+        rewrite map_app, <- app_assoc. cbn. exact Hnd.
+        rewrite !app_length in Hfuel. destruct pk; [contradiction|]. cbn in Hfuel. lia.
+      * apply NoDup_remove_2 in Hnd. intro Hin. apply Hnd. apply in_or_app. left. exact Hin.
+    + symmetry. apply Nat.ltb_lt. rewrite !app_length. destruct pk; [contradiction|]. cbn. lia.
+Qed.
+
+(* types without hash containers (used by the success-stability theorem) *)
 Fixpoint no_hash (t : ty) : Prop :=
   match t with
   | TS _ | TStr => True
@@ -579,18 +683,48 @@ Qed.
 Lemma length_zero_nil : forall (l : list Z), Z.of_nat (length l) = 0 -> l = [].
 Proof. destruct l; cbn; intros; auto. lia. Qed.
 
+Lemma map_entries : forall k w l,
+  (fix go (l : list val) : Prop :=
+     match l with
+     | [] => True
+     | VSeq [a; b] :: r => wf k a /\ small (ssize k a) /\ wf w b /\ small (ssize w b) /\ go r
+     | _ :: _ => False
+     end) l ->
+  exists kvs, l = map mk_entry kvs /\
+              Forall (fun kv => wf k (fst kv) /\ small (ssize k (fst kv)) /\ wf w (snd kv) /\ small (ssize w (snd kv))) kvs.
+Proof.
+  intros k w. induction l as [|p r IH]; intros H.
+  - exists []. split; [reflexivity|constructor].
+  - destruct p as [| |[|a [|b [|]]]| |]; try contradiction. destruct H as (Wa & Sa & Wb & Sb & Hr).
+    destruct (IH Hr) as (kvs & -> & Hk). exists ((a, b) :: kvs). split; [reflexivity|]. constructor; auto.
+Qed.
+Lemma encode_map_entries : forall k w kvs, encode (TMap k w) (VSeq (map mk_entry kvs)) =
+  concat (map (fun pp : list Z * list Z => fst pp ++ snd pp)
+              (map (fun kv => (packed k (ssize k (fst kv)) (encode k (fst kv)),
+                               packed w (ssize w (snd kv)) (encode w (snd kv)))) kvs)).
+Proof.
+  intros. cbn [encode]. induction kvs as [|[a b] kvs IH]; [reflexivity|].
+  cbn [map flat_map concat mk_entry fst snd]. rewrite IH. reflexivity.
+Qed.
+Lemma norm_map_entries : forall k w kvs, norm (TMap k w) (VSeq (map mk_entry kvs)) =
+  VSeq (map mk_entry (map (fun kv => (norm k (fst kv), norm w (snd kv))) kvs)).
+Proof.
+  intros. cbn [norm]. f_equal. induction kvs as [|[a b] kvs IH]; [reflexivity|].
+  cbn [map mk_entry fst snd]. rewrite IH. reflexivity.
+Qed.
+
 Section RT2.
 Variable nd : bool.
 
-Definition RT (t : ty) : Prop := forall v, ty_ok t -> no_hash t -> wf t v ->
+Definition RT (t : ty) : Prop := forall v, ty_ok t -> wf t v ->
   (is_ld t = true -> decode nd t (S0 (encode t v)) (dflt t) = Ok (norm t v) (S0 []))
   /\ (is_ld t = false -> nonnull t v ->
       forall post cur, decode nd t (S0 (encode t v ++ post)) cur = Ok (norm t v) (S0 post)).
 
-Lemma elem_piece : forall e x, RT e -> elem_ok e = true -> ty_ok e -> no_hash e -> wf e x -> small (ssize e x) ->
+Lemma elem_piece : forall e x, RT e -> elem_ok e = true -> ty_ok e -> wf e x -> small (ssize e x) ->
   piece_ok (dec_packed e (decode nd e)) (dflt e) (packed e (ssize e x) (encode e x)) (norm e x).
 Proof.
-  intros e x HRT Hel Hok Hnh Hwf Hs. destruct (HRT x Hok Hnh Hwf) as [A B].
+  intros e x HRT Hel Hok Hwf Hs. destruct (HRT x Hok Hwf) as [A B].
   pose proof (size_exact e x Hok Hwf) as Hsz.
   destruct (is_ld e) eqn:Hld.
   - split. apply packed_nonempty. congruence.
@@ -600,11 +734,11 @@ Proof.
     intros rest. apply dec_packed_nld; auto.
 Qed.
 
-Lemma elems_pieces : forall e l, RT e -> elem_ok e = true -> ty_ok e -> no_hash e -> welems e l ->
+Lemma elems_pieces : forall e l, RT e -> elem_ok e = true -> ty_ok e -> welems e l ->
   Forall2 (piece_ok (dec_packed e (decode nd e)) (dflt e))
           (map (fun x => packed e (ssize e x) (encode e x)) l) (map (norm e) l).
 Proof.
-  intros e l HRT Hel Hok Hnh Hl. induction Hl as [|x r [Hx Hs] _ IH]; cbn; constructor; auto.
+  intros e l HRT Hel Hok Hl. induction Hl as [|x r [Hx Hs] _ IH]; cbn; constructor; auto.
   apply elem_piece; auto.
 Qed.
 
@@ -656,14 +790,14 @@ Proof. induction pre; intros; cbn. reflexivity. rewrite IHpre. reflexivity. Qed.
 
 Lemma agg_step : forall fs i num t x rest cur fuel,
   NoDup (map fst fs) -> nth_error fs i = Some (num, t) -> 0 < num < 2 ^ 29 ->
-  ty_ok t -> no_hash t -> wf t x -> small (ssize t x) -> ssize t x <> 0 -> RT t ->
+  ty_ok t -> wf t x -> small (ssize t x) -> ssize t x <> 0 -> RT t ->
   nth i cur VNull = dflt t ->
   agg_loop (tbl fs) (S fuel) (S0 (field num t (ssize t x) (encode t x) ++ rest)) cur
   = agg_loop (tbl fs) fuel (S0 rest) (upd_nth i (norm t x) cur).
 Proof.
-  intros fs i num t x rest cur fuel Hnd Hn Hnum Hok Hnh Hwf Hs Hnz HRT Hcur.
+  intros fs i num t x rest cur fuel Hnd Hn Hnum Hok Hwf Hs Hnz HRT Hcur.
   destruct (tag_facts num t Hnum) as (Hu & Hfn & Hw). pose proof (tag_range num t) as Htr.
-  pose proof (size_exact t x Hok Hwf) as Hsz. destruct (HRT x Hok Hnh Hwf) as [A B].
+  pose proof (size_exact t x Hok Hwf) as Hsz. destruct (HRT x Hok Hwf) as [A B].
   unfold field. replace (field_skipped (ssize t x)) with false by (symmetry; apply Z.eqb_neq; auto).
   cbn [agg_loop]. rewrite <- app_assoc. rewrite has_data_app by apply varint_nonempty.
   unfold S0 at 1. rewrite read_varint_ok by lia. rewrite Hu, Hfn.
@@ -726,8 +860,11 @@ Proof.
   intros t e l Ht Hok Hwf Hel Hs. destruct l as [|x r]; [reflexivity|]. exfalso.
   rewrite (size_exact t _ Hok Hwf) in Hs. apply length_zero_nil in Hs.
   assert (Hx : wf e x).
-  { destruct Ht as [->|[->|[->|[n ->]]]]; cbn [wf] in Hwf; try (destruct Hwf as [Hx _]; exact Hx).
-    destruct Hwf as [_ [Hx _]]. exact Hx. }
+  { destruct Ht as [->|[->|[->|[n ->]]]]; cbn [wf] in Hwf.
+    - destruct Hwf as [Hx _]; exact Hx.
+    - destruct Hwf as [Hx _]; exact Hx.
+    - destruct Hwf as [[Hx _] _]; exact Hx.
+    - destruct Hwf as [_ [Hx _]]. exact Hx. }
   assert (He : encode t (VSeq (x :: r)) = packed e (ssize e x) (encode e x) ++ encode t (VSeq r)).
   { destruct Ht as [->|[->|[->|[n ->]]]]; reflexivity. }
   rewrite He in Hs. apply app_eq_nil in Hs. destruct Hs as [Hs _]. exact (elem_packed_nonempty e x Hel Hx Hs).
@@ -742,8 +879,9 @@ Proof.
   - rewrite (seq_empty_of_size0 (TList t) t l); auto. destruct Hok; auto.
   - rewrite (seq_empty_of_size0 (TSet t) t l); auto. destruct Hok; auto.
   - (* map *) destruct l as [|p r]; [reflexivity|]. exfalso.
+    assert (Hw0 : wf (TMap t1 t2) (VSeq (p :: r))) by exact Hwf. destruct Hwf as [Hwf _].
     destruct p as [| |[|a [|b [|]]]| |]; try contradiction.
-    assert (Hw : wf (TMap t1 t2) (VSeq (VSeq [a; b] :: r))) by exact Hwf.
+    assert (Hw : wf (TMap t1 t2) (VSeq (VSeq [a; b] :: r))) by exact Hw0.
     rewrite (size_exact (TMap t1 t2) _ Hok Hw) in Hs. apply length_zero_nil in Hs.
     cbn [encode flat_map] in Hs. apply app_eq_nil in Hs. destruct Hs as [Hs _].
     apply app_eq_nil in Hs. destruct Hs as [Hs _].
@@ -771,15 +909,15 @@ Proof.
 Qed.
 
 Lemma agg_in_order : forall suf fs pre lpre lsuf fuel, fs = pre ++ suf ->
-  NoDup (map fst fs) -> fields_ok suf -> Forall (fun p => no_hash (snd p)) suf -> Forall (fun p => RT (snd p)) suf ->
+  NoDup (map fst fs) -> fields_ok suf -> Forall (fun p => RT (snd p)) suf ->
   length lpre = length pre -> wf_fields suf lsuf -> (length (enc_fields suf lsuf) < fuel)%nat ->
   agg_loop (tbl fs) fuel (S0 (enc_fields suf lsuf)) (lpre ++ map (fun p => dflt (snd p)) suf)
   = Ok (VSeq (lpre ++ norm_fields suf lsuf)) (S0 []).
 Proof.
-  induction suf as [|[num t] suf IH]; intros fs pre lpre lsuf fuel Hfs Hnd Hf Hnh HRT Hlen Hw Hfuel;
+  induction suf as [|[num t] suf IH]; intros fs pre lpre lsuf fuel Hfs Hnd Hf HRT Hlen Hw Hfuel;
     destruct lsuf as [|x l]; cbn [wf_fields] in Hw; try contradiction.
   - destruct fuel; [cbn in Hfuel; lia|]. reflexivity.
-  - inversion Hf as [|? ? [Hn Ho] Hfr]; subst. inversion Hnh as [|? ? Hnh1 Hnhr]; subst.
+  - inversion Hf as [|? ? [Hn Ho] Hfr]; subst.
     inversion HRT as [|? ? HRT1 HRTr]; subst. destruct Hw as (Wx & Sx & Wr). cbn [fst snd] in *.
     cbn [enc_fields norm_fields map snd] in *.
     assert (Hfs' : pre ++ (num, t) :: suf = (pre ++ [(num, t)]) ++ suf) by (rewrite <- app_assoc; reflexivity).
@@ -815,28 +953,44 @@ Qed.
 (* ---------- round trip: scalars, strings, vector/list/array, smart pointers, arbitrarily nested ---------- *)
 Theorem roundtrip_core : forall t, RT t.
 Proof.
-  induction t using ty_ind'; intros v Hok Hnh Hwf; destruct v; cbn [wf] in Hwf; try contradiction.
+  induction t using ty_ind'; intros v Hok Hwf; destruct v; cbn [wf] in Hwf; try contradiction.
   - (* scalar *) split; [cbn; intros; destruct k; discriminate|]. intros _ _ post cur.
     cbn [decode encode norm]. apply dec_scalar_rt; auto.
   - (* string *) split; [|cbn; discriminate]. intros _. reflexivity.
-  - (* vector *) split; [|cbn; discriminate]. intros _. destruct Hok as [Hel Hok]. cbn in Hnh.
+  - (* vector *) split; [|cbn; discriminate]. intros _. destruct Hok as [Hel Hok].
     apply wf_elems in Hwf. cbn [decode encode norm dflt seq_items].
     replace (is_fp t && _) with false by (unfold S0; cbn [ext]; rewrite andb_false_r; reflexivity).
     rewrite flat_map_concat.
     rewrite (seq_loop_pieces _ _ _ _ (map (norm t) l));
       [reflexivity | intros w; apply cond_vec | apply elems_pieces; auto | unfold S0; cbn [win]; lia].
-  - (* list *) split; [|cbn; discriminate]. intros _. destruct Hok as [Hel Hok]. cbn in Hnh.
+  - (* list *) split; [|cbn; discriminate]. intros _. destruct Hok as [Hel Hok].
     apply wf_elems in Hwf. cbn [decode encode norm dflt seq_items]. rewrite flat_map_concat.
     rewrite (seq_loop_pieces _ _ _ _ (map (norm t) l));
       [reflexivity | intros w; apply cond_data | apply elems_pieces; auto | unfold S0; cbn [win]; lia].
-  - (* array *) split; [|cbn; discriminate]. intros _. destruct Hok as [Hel Hok]. cbn in Hnh.
+  - (* set: the entries come back in wire order, all different *)
+    split; [|cbn; discriminate]. intros _. destruct Hok as [Hel Hok]. destruct Hwf as [Hwf Hnd].
+    apply wf_elems in Hwf. cbn [decode encode norm dflt seq_items]. rewrite flat_map_concat.
+    rewrite (seq_loop_pieces_set _ _ _ _ (map (norm t) l));
+      [reflexivity | intros w; apply cond_data | apply elems_pieces; auto | exact Hnd | unfold S0; cbn [win]; lia].
+  - (* map *)
+    split; [|cbn; discriminate]. intros _. destruct Hok as (Hel1 & Hel2 & Hok1 & Hok2). destruct Hwf as [Hwf Hnd].
+    destruct (map_entries t1 t2 l Hwf) as (kvs & -> & Hkvs).
+    rewrite encode_map_entries, norm_map_entries. cbn [decode dflt seq_items].
+    rewrite (map_loop_pieces _ _ _ _ _ (map (fun kv => (norm t1 (fst kv), norm t2 (snd kv))) kvs)).
+    + cbn [app]. rewrite map_map. reflexivity.
+    + clear Hnd Hwf. induction Hkvs as [|[a b] kvs (Wa & Sa & Wb & Sb) _ IH]; cbn [map]; constructor.
+      * cbn [fst snd] in *. split; apply elem_piece; auto.
+      * exact IH.
+    + cbn [map app]. rewrite map_map. cbn [fst]. rewrite map_map in Hnd. exact Hnd.
+    + unfold S0. cbn [win]. lia.
+  - (* array *) split; [|cbn; discriminate]. intros _. destruct Hok as [Hel Hok].
     destruct Hwf as [Hn Hwf]. apply wf_elems in Hwf. cbn [decode encode norm dflt seq_items]. rewrite flat_map_concat.
     subst n. rewrite <- (map_length (fun x => packed t (ssize t x) (encode t x)) l).
     apply arr_go_pieces. apply elems_pieces; auto.
   - (* null pointer *) split.
     + intros _. reflexivity.
     + intros _ Hnn. cbn in Hnn. contradiction.
-  - (* pointer *) cbn in Hok, Hnh. destruct (IHt v Hok Hnh Hwf) as [A B].
+  - (* pointer *) cbn in Hok. destruct (IHt v Hok Hwf) as [A B].
     pose proof (size_exact t v Hok Hwf) as Hsz. split.
     + intros Hld. cbn [is_ld wire] in Hld. specialize (A Hld). cbn [decode encode norm dflt].
       rewrite A. destruct (encode t v) as [|b r] eqn:E; unfold has_data, S0; cbn [win].
@@ -849,7 +1003,6 @@ Proof.
       replace (ssize t v =? 0) with false. reflexivity.
       symmetry. apply Z.eqb_neq. rewrite Hsz. cbn [length]. lia.
   - (* aggregate *) split; [|cbn; discriminate]. intros _. destruct Hok as [Hnd Hf]. apply ty_ok_fields in Hf.
-    cbn [no_hash] in Hnh. apply no_hash_fields in Hnh.
     assert (Hw : wf_fields fs l) by (apply wf_agg; exact Hwf).
     rewrite norm_agg, encode_agg. cbn [decode dflt seq_items]. fold (tbl fs).
     apply (agg_in_order fs fs [] [] l); auto.
@@ -901,17 +1054,17 @@ Lemma ex_absent_keep_defaults :
 Proof. vm_compute. reflexivity. Qed.
 
 (* ---------- corollaries in terms of parse ---------- *)
-Lemma roundtrip_ld : forall nd t v, ty_ok t -> no_hash t -> wf t v -> is_ld t = true ->
+Lemma roundtrip_ld : forall nd t v, ty_ok t -> wf t v -> is_ld t = true ->
   parse nd false t (encode t v) = Ok (norm t v) (S0 []).
-Proof. intros nd t v Hok Hnh Hwf Hld. unfold parse. destruct (roundtrip_core nd t v Hok Hnh Hwf) as [A _]. apply A, Hld. Qed.
-Lemma roundtrip_nld : forall nd t v post, ty_ok t -> no_hash t -> wf t v -> is_ld t = false -> nonnull t v ->
+Proof. intros nd t v Hok Hwf Hld. unfold parse. destruct (roundtrip_core nd t v Hok Hwf) as [A _]. apply A, Hld. Qed.
+Lemma roundtrip_nld : forall nd t v post, ty_ok t -> wf t v -> is_ld t = false -> nonnull t v ->
   parse nd false t (encode t v ++ post) = Ok (norm t v) (S0 post).
 Proof.
-  intros nd t v post Hok Hnh Hwf Hld Hnn. unfold parse. destruct (roundtrip_core nd t v Hok Hnh Hwf) as [_ B].
+  intros nd t v post Hok Hwf Hld Hnn. unfold parse. destruct (roundtrip_core nd t v Hok Hwf) as [_ B].
   apply B; auto.
 Qed.
 (* what a successful round trip returns serializes to the same bytes when no pointer was normalised *)
-Lemma wf_example : wf ex_ty ex_val /\ ty_ok ex_ty /\ no_hash ex_ty /\ is_ld ex_ty = true.
+Lemma wf_example : wf ex_ty ex_val /\ ty_ok ex_ty /\ is_ld ex_ty = true.
 Proof. cbn. unfold small. cbn. repeat split; try lia; repeat constructor; cbn; intuition lia. Qed.
 
 (* ---------- protobuf compatibility of aggregates: unknown fields, any order, absent fields ---------- *)
@@ -1003,14 +1156,14 @@ Proof.
   - intro E. apply app_eq_nil in E. destruct E as [E _]. exact (varint_nonempty _ E).
 Qed.
 
-Theorem agg_chunks : forall fs, ty_ok (TAgg fs) -> no_hash (TAgg fs) ->
+Theorem agg_chunks : forall fs, ty_ok (TAgg fs) ->
   forall cs cur fuel, Forall (chunk_ok fs) cs -> NoDup (flat_map chunk_idx cs) ->
   (forall i num t, In i (flat_map chunk_idx cs) -> nth_error fs i = Some (num, t) -> nth i cur VNull = dflt t) ->
   (length (concat (map (chunk_bytes fs) cs)) < fuel)%nat ->
   agg_loop (tbl nd fs) fuel (S0 (concat (map (chunk_bytes fs) cs))) cur
   = Ok (VSeq (fold_left (chunk_apply fs) cs cur)) (S0 []).
 Proof.
-  intros fs [Hnd Hf] Hnh. apply ty_ok_fields in Hf. cbn [no_hash] in Hnh. apply no_hash_fields in Hnh.
+  intros fs [Hnd Hf]. apply ty_ok_fields in Hf.
   induction cs as [|c cs IH]; intros cur fuel Hok Hdis Hcur Hfuel.
   - destruct fuel; [cbn in Hfuel; lia|]. reflexivity.
   - inversion Hok as [|? ? Hc Hcs]; subst. cbn [map concat fold_left] in *.
@@ -1021,10 +1174,10 @@ Proof.
     + destruct Hc as (num & t & Hn & Wx & Sx & Hnz). rewrite Hn in *.
       pose proof (nth_error_In _ _ Hn) as Hin.
       destruct (proj1 (Forall_forall _ _) Hf _ Hin) as [Hnum Hokt].
-      pose proof (proj1 (Forall_forall _ _) Hnh _ Hin) as Hnht. cbn [fst snd] in *.
+      cbn [fst snd] in *.
       inversion Hdis as [|? ? Hnotin Hdis']; subst.
       assert (Hci : nth i cur VNull = dflt t) by (apply (Hcur i num t); [left; reflexivity|exact Hn]).
-      rewrite (agg_step nd fs i num t x _ cur fuel Hnd Hn Hnum Hokt Hnht Wx Sx Hnz (roundtrip_core nd t) Hci).
+      rewrite (agg_step nd fs i num t x _ cur fuel Hnd Hn Hnum Hokt Wx Sx Hnz (roundtrip_core nd t) Hci).
       apply IH; auto.
       * intros j num' t' Hj Hn'. assert (i <> j) by (intros ->; contradiction).
         rewrite nth_upd_other by auto. apply (Hcur j num' t'); auto. right. exact Hj.
@@ -1034,12 +1187,12 @@ Proof.
 Qed.
 
 (* parsing any sequence of distinct known fields and unknown fields, in any order, into a fresh object *)
-Theorem compat_parse : forall fs cs, ty_ok (TAgg fs) -> no_hash (TAgg fs) ->
+Theorem compat_parse : forall fs cs, ty_ok (TAgg fs) ->
   Forall (chunk_ok fs) cs -> NoDup (flat_map chunk_idx cs) ->
   parse nd false (TAgg fs) (concat (map (chunk_bytes fs) cs))
   = Ok (VSeq (fold_left (chunk_apply fs) cs (map (fun p => dflt (snd p)) fs))) (S0 []).
 Proof.
-  intros fs cs Hok Hnh Hcs Hdis. unfold parse. cbn [decode dflt seq_items]. fold (tbl nd fs).
+  intros fs cs Hok Hcs Hdis. unfold parse. cbn [decode dflt seq_items]. fold (tbl nd fs).
   apply agg_chunks; auto.
   intros i num t _ Hn. rewrite (nth_indep _ VNull (dflt (snd (num, t)))).
   - change (dflt (snd (num, t))) with ((fun p => dflt (snd p)) (num, t)). rewrite map_nth.
@@ -1083,12 +1236,12 @@ Proof.
     apply (Permutation_NoDup (Permutation_flat_map chunk_idx HP1)). exact Hd.
 Qed.
 
-Theorem compat_order_irrelevant : forall fs cs cs', ty_ok (TAgg fs) -> no_hash (TAgg fs) ->
+Theorem compat_order_irrelevant : forall fs cs cs', ty_ok (TAgg fs) ->
   Forall (chunk_ok fs) cs -> NoDup (flat_map chunk_idx cs) -> Permutation cs cs' ->
   exists v, parse nd false (TAgg fs) (concat (map (chunk_bytes fs) cs)) = Ok v (S0 []) /\
             parse nd false (TAgg fs) (concat (map (chunk_bytes fs) cs')) = Ok v (S0 []).
 Proof.
-  intros fs cs cs' Hok Hnh Hcs Hd HP. eexists. split.
+  intros fs cs cs' Hok Hcs Hd HP. eexists. split.
   - apply compat_parse; auto.
   - rewrite (fold_chunks_perm fs cs cs' HP Hd). apply compat_parse; auto.
     + apply (Permutation_Forall HP). exact Hcs.
@@ -1106,4 +1259,58 @@ Proof.
     + exists 2, TStr. cbn. unfold small. cbn. repeat split; lia.
     + exists 1, (TS KI32). cbn. unfold small. cbn. repeat split; lia.
   - cbn. repeat constructor; cbn; intuition lia.
+Qed.
+
+(* ---------- any iteration order of a hash container is well formed if one is ---------- *)
+Lemma wf_set_perm : forall e l l', Permutation l l' -> wf (TSet e) (VSeq l) -> wf (TSet e) (VSeq l').
+Proof.
+  intros e l l' HP [Hg Hn]. split.
+  - apply wf_elems. apply wf_elems in Hg. unfold welems in *. apply (Permutation_Forall HP). exact Hg.
+  - apply (Permutation_NoDup (Permutation_map (norm e) HP)). exact Hn.
+Qed.
+Definition entry_ok (k w : ty) (p : val) : Prop :=
+  exists a b, p = VSeq [a; b] /\ wf k a /\ small (ssize k a) /\ wf w b /\ small (ssize w b).
+Lemma wf_map_go : forall k w l,
+  (fix go (l : list val) : Prop :=
+     match l with
+     | [] => True
+     | VSeq [a; b] :: r => wf k a /\ small (ssize k a) /\ wf w b /\ small (ssize w b) /\ go r
+     | _ :: _ => False
+     end) l <-> Forall (entry_ok k w) l.
+Proof.
+  intros k w. induction l as [|p r IH]; split; intro H.
+  - constructor. - exact I.
+  - destruct p as [| |[|a [|b [|]]]| |]; try contradiction. destruct H as (A & B & C & D & E).
+    constructor; [exists a, b; auto|apply IH; exact E].
+  - inversion H as [|? ? (a & b & -> & A & B & C & D) E]; subst. repeat split; auto. apply IH. exact E.
+Qed.
+Lemma wf_map_perm : forall k w l l', Permutation l l' -> wf (TMap k w) (VSeq l) -> wf (TMap k w) (VSeq l').
+Proof.
+  intros k w l l' HP [Hg Hn]. split.
+  - apply wf_map_go. apply wf_map_go in Hg. apply (Permutation_Forall HP). exact Hg.
+  - apply (Permutation_NoDup (Permutation_map (fun p => norm k (entry_key p)) HP)). exact Hn.
+Qed.
+(* whatever order the container iterates in, what is written parses back to the same entries in that order *)
+Lemma roundtrip_set_any_order : forall nd e l l', ty_ok (TSet e) -> wf (TSet e) (VSeq l) -> Permutation l l' ->
+  parse nd false (TSet e) (encode (TSet e) (VSeq l')) = Ok (VSeq (map (norm e) l')) (S0 []) /\
+  Permutation (map (norm e) l) (map (norm e) l').
+Proof.
+  intros nd e l l' Hok Hwf HP. split.
+  - apply (roundtrip_ld nd (TSet e) (VSeq l')); auto. apply (wf_set_perm e l l'); auto.
+  - apply Permutation_map. exact HP.
+Qed.
+Lemma roundtrip_map_any_order : forall nd k w l l', ty_ok (TMap k w) -> wf (TMap k w) (VSeq l) -> Permutation l l' ->
+  parse nd false (TMap k w) (encode (TMap k w) (VSeq l')) = Ok (norm (TMap k w) (VSeq l')) (S0 []) /\
+  exists nl nl', norm (TMap k w) (VSeq l) = VSeq nl /\ norm (TMap k w) (VSeq l') = VSeq nl' /\ Permutation nl nl'.
+Proof.
+  intros nd k w l l' Hok Hwf HP. split.
+  - apply (roundtrip_ld nd (TMap k w) (VSeq l')); auto. apply (wf_map_perm k w l l'); auto.
+  - cbn [norm]. eexists. eexists. split; [reflexivity|]. split; [reflexivity|]. apply Permutation_map. exact HP.
+Qed.
+Definition ex_hash_ty : ty := TAgg [(1, TSet (TS KI64)); (2, TMap TStr (TVec (TS KI32)))].
+Definition ex_hash_val : val :=
+  VSeq [VSeq [VInt 3; VInt (-1)]; VSeq [VSeq [VStr [97]; VSeq [VInt 1]]; VSeq [VStr []; VSeq []]]].
+Lemma wf_hash_example : wf ex_hash_ty ex_hash_val /\ ty_ok ex_hash_ty.
+Proof.
+  cbn. unfold small. cbn. repeat split; try lia; repeat constructor; cbn; intuition (try lia; try discriminate).
 Qed.
